@@ -83,6 +83,11 @@ pub enum Op {
     Require(u8),
     /// set (or create in the top scope) the best-individual memory
     SetBest(Option<f64>),
+    /// `set_value::<T>(v)` while a shared (`excl = false`) or exclusive guard on the innermost
+    /// `T` is alive: must be refused (`None`) and must not touch any other scope
+    SetWhileBorrowed(u8, bool, u32),
+    /// `try_get_value::<T>()` while an exclusive guard on the innermost `T` is alive
+    GetWhileBorrowedMut(u8),
 }
 
 #[derive(Clone, Debug, PartialEq, Serialize, Deserialize)]
@@ -97,6 +102,7 @@ pub enum Ret {
     Panicked,
     Popped(BTreeMap<u8, u64>),
     NoParent,
+    Conflict,
     Inner {
         rets: Vec<Ret>,
         child: Option<BTreeMap<u8, u64>>,
@@ -287,7 +293,23 @@ impl Model {
                 }
                 Ret::Unit
             }
+            // a guard on the innermost T is alive: the request is refused, nothing changes
+            Op::SetWhileBorrowed(t, _, _) => Ret::Opt(None).min_found(self.find(*t).is_some()),
+            Op::GetWhileBorrowedMut(t) => {
+                if self.find(*t).is_some() {
+                    Ret::Conflict
+                } else {
+                    Ret::NotFound
+                }
+            }
         }
+    }
+}
+
+impl Ret {
+    fn min_found(self, _found: bool) -> Ret {
+        // `set_value` answers `None` both for an absent state and for a refused borrow
+        self
     }
 }
 
@@ -536,6 +558,29 @@ pub fn apply_real(op: &Op, st: &mut St) -> Ret {
             **st.borrow_mut::<BestIndividual<EP>>() = ind;
             Ret::Unit
         }
+        Op::SetWhileBorrowed(t, excl, v) => with_ty!(*t, T => {
+            if *excl {
+                match st.try_borrow_mut::<T>() {
+                    Ok(_guard) => Ret::Opt(st.set_value::<T>(*v).map(|o| o as u64)),
+                    Err(_) => Ret::Opt(st.set_value::<T>(*v).map(|o| o as u64)),
+                }
+            } else {
+                match st.try_borrow::<T>() {
+                    Ok(_guard) => Ret::Opt(st.set_value::<T>(*v).map(|o| o as u64)),
+                    Err(_) => Ret::Opt(st.set_value::<T>(*v).map(|o| o as u64)),
+                }
+            }
+        }),
+        Op::GetWhileBorrowedMut(t) => with_ty!(*t, T => {
+            match st.try_borrow_mut::<T>() {
+                Ok(_guard) => match st.try_get_value::<T>() {
+                    Ok(v) => val(v),
+                    Err(StateError::BorrowConflictImm(..)) => Ret::Conflict,
+                    Err(e) => state_err(&e, true),
+                },
+                Err(e) => state_err(&e, true),
+            }
+        }),
     }
 }
 
@@ -607,6 +652,13 @@ impl<'a> OpGen<'a> {
                     Op::Holding { t, write, ops, fail: self.g.chance(0.4) }
                 }
                 98 => Op::Require(t),
+                99 => {
+                    if self.g.chance(0.5) {
+                        Op::SetWhileBorrowed(t, self.g.chance(0.5), self.val())
+                    } else {
+                        Op::GetWhileBorrowedMut(t)
+                    }
+                }
                 _ => continue,
             };
         }
